@@ -698,3 +698,47 @@ Qed.
 Print Assumptions c01_number_same_in_every_encoding_refuted.
 Print Assumptions c01_number_same_in_every_encoding_partial.
 Print Assumptions c01_accepted_number_in_every_encoding.
+
+(* ================================================================== *)
+(* Two near-simultaneous {sub} to a topic that is NOT loaded (Hub.run registers the paused
+   instance before `go topicInit`): model Sys/HubJoinC01.v.  Every order of: the hub takes a
+   join / a load completes / an attached session's publish is handled. *)
+From Tinode Require Import Sys.HubJoinC01 Sys.HubJoinC01Proofs.
+
+(* at most one Topic instance is ever created for the name, whatever the order of events *)
+Theorem c01_join_single_instance : forall seqid rows h, (forall n, In n rows -> n <= seqid) ->
+  (length (j_insts (fst (jrun true (jinit seqid rows) h))) <= 1)%nat.
+Proof. intros seqid rows h H. apply jinv_one_instance. apply jrun_inv. apply jinit_inv. exact H. Qed.
+
+(* hence every number is passed to MessageSave once and no publish of an attached writer is
+   refused for a number that is already taken *)
+Theorem c01_join_numbers_saved_once : forall seqid rows h, (forall n, In n rows -> n <= seqid) ->
+  let x := fst (jrun true (jinit seqid rows) h) in
+  NoDup (map fst (j_saves x)) /\ (forall p, In p (j_saves x) -> snd p = true).
+Proof.
+  intros seqid rows h H x. destruct (jrun_inv h _ (jinit_inv seqid rows H)) as (_ & B & C & _).
+  split; [exact C|]. intros p Hp. apply (B p Hp).
+Qed.
+
+(* what the early registration is for: with the registration at the end of topicInit the same
+   statement is refuted (both joins taken before either load completes: two instances, both number
+   from the same stored mark) *)
+Definition c01_join_late_registration_statement : Prop :=
+  forall seqid rows h, (forall n, In n rows -> n <= seqid) ->
+    NoDup (map fst (j_saves (fst (jrun false (jinit seqid rows) h)))).
+Theorem c01_join_late_registration_refuted : ~ c01_join_late_registration_statement.
+Proof.
+  intros H. specialize (H 0 [] join_wit (fun n (F : In n []) => match F with end)).
+  destruct join_wit_late as (_ & S & _). cbn zeta in S. rewrite S in H. cbn in H.
+  inversion H as [|a l NI _]. apply NI. left. reflexivity.
+Qed.
+
+Print Assumptions c01_join_single_instance.
+Print Assumptions c01_join_numbers_saved_once.
+Print Assumptions c01_join_late_registration_refuted.
+
+Example c01_join_ex :
+  let r := jrun true (jinit 0 []) (join_wit ++ [JJoin 2; JPub 2]) in
+  j_saves (fst r) = [(1, true); (2, true)] /\
+  snd r = [[]; [JCtrl 2 503]; [JCtrl 1 200]; []; [JAck 1 1]; [JCtrl 2 409]; [JCtrl 2 200]; [JAck 2 2]].
+Proof. vm_compute. split; reflexivity. Qed.
